@@ -302,6 +302,66 @@ pub fn k_c12_fft_offset_blowup2() {
     vreach!("C12.fft_offset.reach");
 }
 
+/// interpolation over the coset offset * <g> inverts naive evaluation over it, for a domain of N points
+fn interpolate_with_offset_inverts<const N: usize>(log_n: u32) {
+    let mut coeffs = [Tiny::ZERO; N];
+    let mut i = 0;
+    while i < N {
+        coeffs[i] = any_tiny();
+        i += 1;
+    }
+    let offset = any_nonzero();
+    let g = Tiny::get_root_of_unity(log_n);
+    let mut ev = Vec::new();
+    let mut x = offset;
+    i = 0;
+    while i < N {
+        ev.push(ref_eval(&coeffs, x));
+        x = x * g;
+        i += 1;
+    }
+    let inv = fft::get_inv_twiddles::<Tiny>(N);
+    fft::interpolate_poly_with_offset(&mut ev, &inv, offset);
+    let mut ok = true;
+    i = 0;
+    while i < N {
+        ok = ok && ev[i] == coeffs[i];
+        i += 1;
+    }
+    vcheck!("C12.fft.interpolate_with_offset_inverts_evaluation", ok);
+}
+
+//# harness: fn=fft::interpolate_poly_with_offset (n = 2, the smallest domain); label=bounded(F_17; n = 2, coefficients and offset symbolic); tier=quick; props=C12; timeout=600; uses=interpolate_with_offset_inverts,any_tiny,any_nonzero,ref_eval
+#[cfg_attr(kani, kani::proof)]
+#[cfg_attr(kani, kani::unwind(10))]
+pub fn k_c12_fft_interpolate_offset_n2() {
+    interpolate_with_offset_inverts::<2>(1);
+    vreach!("C12.fft_interp_offset.2.reach");
+}
+
+//# harness: fn=fft::interpolate_poly_with_offset (n = 4); label=bounded(F_17; n = 4, coefficients and offset symbolic); tier=quick; props=C12; timeout=1500; uses=interpolate_with_offset_inverts,any_tiny,any_nonzero,ref_eval
+#[cfg_attr(kani, kani::proof)]
+#[cfg_attr(kani, kani::unwind(10))]
+pub fn k_c12_fft_interpolate_offset_n4() {
+    interpolate_with_offset_inverts::<4>(2);
+    vreach!("C12.fft_interp_offset.4.reach");
+}
+
+//# harness: fn=fft::evaluate_poly, interpolate_poly (n = 2, the smallest domain); label=bounded(F_17; n = 2, coefficients symbolic); tier=quick; props=C12; timeout=600; uses=any_tiny,ref_eval
+#[cfg_attr(kani, kani::proof)]
+#[cfg_attr(kani, kani::unwind(10))]
+pub fn k_c12_fft_size2() {
+    let coeffs = [any_tiny(), any_tiny()];
+    let mut p = coeffs.to_vec();
+    let twiddles = fft::get_twiddles::<Tiny>(2);
+    fft::evaluate_poly(&mut p, &twiddles);
+    vcheck!("C12.fft.size2.evaluate_equals_naive_evaluation", p[0] == ref_eval(&coeffs, Tiny::ONE) && p[1] == ref_eval(&coeffs, Tiny::get_root_of_unity(1)));
+    let inv = fft::get_inv_twiddles::<Tiny>(2);
+    fft::interpolate_poly(&mut p, &inv);
+    vcheck!("C12.fft.size2.interpolate_inverts_evaluate", p[0] == coeffs[0] && p[1] == coeffs[1]);
+    vreach!("C12.fft2.reach");
+}
+
 //# harness: fn=fft::permute_index, fft::get_twiddles (bit-reversed power series); label=complete in index for sizes 2..=2^16 (permute_index); closed for twiddles of size 8; tier=quick; props=C12
 #[cfg_attr(kani, kani::proof)]
 #[cfg_attr(kani, kani::unwind(10))]
